@@ -48,7 +48,9 @@ extern "C" void harness(void)
 #if defined(FILLFIRST) && OUTSYM
 #error FILLFIRST needs OUTSYM=0 (the whole relation is requested)
 #endif
-#ifdef FILLFIRST
+#ifdef OUTFIX      // a fixed output size between NQ and the number of states (e.g. 16 = one row of the result's bit matrix)
+  unsigned out = OUTFIX;
+#elif defined(FILLFIRST)
   unsigned out = NQ + FILL;
 #else
   unsigned out = OUTSYM ? vs_range(NQ + 1) : NQ;
